@@ -207,6 +207,32 @@ func connect(pm *protocol.ProtocolManager, name string, tag byte, withReqs bool)
 	return ep, true
 }
 
+// answerEmpty: a peer that has nothing beyond what it claimed still answers the node's requests
+// (the downloader asks every registered peer for momentums, whatever its TD): with empty lists, at
+// once, as a real node that lacks the hashes does. Without this the node would wait 9 s for each
+// request it sent to a connection of the harness that says nothing.
+func (ep *endpoint) answerEmpty() {
+	if ep.reqs == nil {
+		return
+	}
+	go func() {
+		for {
+			select {
+			case <-ep.done:
+				return
+			case rq := <-ep.reqs:
+				code := uint64(codeBlockHashes)
+				if rq.code == codeGetBlocks {
+					code = codeBlocks
+				}
+				if o := ep.deliverBytes(code, []byte{0xC0}, "empty "+codeName(code)+" answering the node's "+codeName(rq.code)); o == stalled || o == blocked {
+					return
+				}
+			}
+		}
+	}()
+}
+
 func (ep *endpoint) gone() bool {
 	select {
 	case <-ep.done:
@@ -371,6 +397,7 @@ type session struct {
 	goodBlk   map[types.Hash]bool // account blocks of A handed to the node unmodified
 	tr        []string
 	hist      []string
+	t0        time.Time
 	epMu      sync.Mutex
 	trace     bool
 	respMu    sync.Mutex
@@ -1363,7 +1390,7 @@ func (s *session) startResponder(ep *endpoint) {
 				nv, _ := rlp.CountValues(listContent(payload))
 				s.respMu.Lock()
 				if len(s.respLog) < 40 {
-					s.respLog = append(s.respLog, fmt.Sprintf("node asked %s (%s); answered by policy %q with %s of %d items", codeName(rq.code), clip(rq.data, 12), s.policy, codeName(code), nv))
+					s.respLog = append(s.respLog, fmt.Sprintf("[+%dms] node asked %s (%s); answered by policy %q with %s of %d items", time.Since(s.t0).Milliseconds(), codeName(rq.code), clip(rq.data, 12), s.policy, codeName(code), nv))
 				}
 				s.respMu.Unlock()
 				if o := ep.deliverBytes(code, payload, fmt.Sprintf("responder (%s) answering %s with %s of %d bytes", s.policy, codeName(rq.code), codeName(code), len(payload))); o == stalled || o == blocked {
@@ -1479,7 +1506,7 @@ var answered int64
 
 func (s *session) connectHonest() bool {
 	c := s.c
-	ep, ok := connect(s.pm, "honest", 0xAA, false)
+	ep, ok := connect(s.pm, "honest", 0xAA, true)
 	s.addEp(ep)
 	if !ok {
 		s.aborted = true
@@ -1507,6 +1534,7 @@ func (s *session) connectHonest() bool {
 		return false
 	}
 	s.honest = ep
+	ep.answerEmpty()
 	return true
 }
 
@@ -1665,7 +1693,7 @@ func sessionProp(c *pbt.C) {
 	tcase := time.Now()
 	defer func() { c.R.Count("ms_case", int(time.Since(tcase).Milliseconds())) }()
 	sh := world()
-	s := &session{c: c, sh: sh, validSet: map[uint64]bool{}, poolOK: map[types.Hash]bool{}, goodBlk: map[types.Hash]bool{}}
+	s := &session{c: c, sh: sh, validSet: map[uint64]bool{}, poolOK: map[types.Hash]bool{}, goodBlk: map[types.Hash]bool{}, t0: time.Now()}
 	s.seed = c.Uint64("seed", 0, 1<<32)
 	s.onA = c.Weighted("target", 60, 40) == 1
 	if s.onA {
